@@ -42,11 +42,3 @@ pub proof fn lemma_groups_text_push(gs: Seq<Seq<ProfV>>, i: int)
     assert(gs.take(i + 1).last() == gs[i]);
 }
 
-// `{}` of a value calls its Display::fmt; for these two types fmt is under contract in this unit
-// (VersionConstraint::fmt writes vconstraint_text, BuildProfile::fmt writes prof_text)
-impl VxDisplay for dc_relations::VersionConstraint {
-    open spec fn display_spec(&self) -> Seq<char> { vconstraint_text(*self) }
-}
-impl VxDisplay for dc_relations::BuildProfile {
-    open spec fn display_spec(&self) -> Seq<char> { prof_text(prof_view(*self)) }
-}
